@@ -573,9 +573,23 @@ Qed.
 Lemma committee_witness_sim b st st' t : Sim b st st' -> committee_witness st' t = committee_witness st t.
 Proof. intros S. unfold committee_witness, committee_sorted. rewrite (sim_committee _ _ _ S). reflexivity. Qed.
 
+Lemma run_lim_sim b st st' pre post o nacct body body' :
+  Sim b st st' -> SimO b body body' -> SimO b (run_lim cfg st pre post o nacct body) (run_lim cfg st' pre post o nacct body').
+Proof.
+  intros S H. unfold run_lim. destruct (add_notifs 0 pre); [|exact I].
+  destruct body as [[s1 r1]|], body' as [[s1' r1']|]; simpl in H; try contradiction; [|exact I].
+  destruct H as [Hr H]. subst r1'. rewrite (sim_L _ _ _ S), (sim_L _ _ _ H).
+  destruct (add_notifs z _); [|exact I]. destruct (add_notifs z0 post); [|exact I].
+  split; [reflexivity|exact H].
+Qed.
+
 Lemma run_op_sim b st st' t : Sim b st st' -> SimO b (run_op cfg st t) (run_op cfg st' t).
 Proof.
   intros S. unfold run_op. rewrite (committee_witness_sim _ _ _ t S). destruct (t_op t).
+  - apply run_lim_sim; [exact S|]. unfold run_lop. destruct o.
+    + apply neo_transfer_sim; exact S.
+    + apply gas_transfer_sim; exact S.
+    + apply vote_sim; exact S.
   - apply neo_transfer_sim; exact S.
   - apply gas_transfer_sim; exact S.
   - apply vote_sim; exact S.
